@@ -16,7 +16,7 @@ class C01(InterpProp):
     quick_cases = 2500
     thorough_cases = 40000
     n_ops = 36
-    edited = 0.2
+    edited = 0.3
     owns_construction = True
     rule = ('random well-formed charts (≤14 states, dense transitions with all priority classes, guards over '
             'event parameters, context flags, after/idle/active) × random histories of queue/setvar/exec; '
